@@ -6,7 +6,13 @@ export GOFLAGS=-mod=mod GOPROXY=off GOSUMDB=off GOTOOLCHAIN=local CGO_ENABLED=0
 export VERIF_DIR="$(cd "$(dirname "$0")" && pwd)"
 REPO=${VERIF_REPO:-/repo}
 B="$VERIF_DIR/.build"
+# VERIF_SRC=<other checkout>: read the sources from there (its differences to $REPO go into the overlay); /repo is not touched
+SRC=${VERIF_SRC:-}
+if [ -n "$SRC" ]; then B="$VERIF_DIR/.build/src-$(echo "$SRC" | tr -c 'A-Za-z0-9' '_')"; fi
 mkdir -p "$B"
+[ -n "$SRC" ] && [ ! -f "$B/keys.json" ] && [ -f "$VERIF_DIR/.build/keys.json" ] && cp "$VERIF_DIR/.build/keys.json" "$B/keys.json"
+export VERIF_BUILD_DIR="$B"
+[ -n "$SRC" ] && export VERIF_OUT_DIR="$B"   # evidence and replay artefacts of such trial runs stay out of /verif/evidence
 build() {
   (
     flock 9
@@ -15,7 +21,7 @@ build() {
     if [ ! -x "$B/mkoverlay" ] || [ cmd/mkoverlay/main.go -nt "$B/mkoverlay" ]; then
       go build -o "$B/mkoverlay" ./cmd/mkoverlay || exit 2
     fi
-    "$B/mkoverlay" "$REPO" "$VERIF_DIR/mc/shim/vsync/vsync.go" "$B" 2>"$B/mkoverlay.log" || { cat "$B/mkoverlay.log" >&2; exit 2; }
+    "$B/mkoverlay" "$REPO" "$VERIF_DIR/mc/shim/vsync/vsync.go" "$B" "$SRC" 2>"$B/mkoverlay.log" || { cat "$B/mkoverlay.log" >&2; exit 2; }
     go build -overlay "$B/overlay.json" -o "$B/stfsmc" ./cmd/stfsmc || exit 2
     if [ "${WANT_SELFTEST:-0}" = 1 ]; then
       go test ./shim/vsync/ >"$B/selftest.log" 2>&1 || { cat "$B/selftest.log" >&2; echo "scheduler self-test failed" >&2; exit 2; }
